@@ -182,7 +182,7 @@ Proof.
     match goal with H : split_task _ _ = Some _ |- _ => pose proof (split_task_perm _ _ _ _ H) as P end.
     apply Permutation_length in P. simpl in P. rewrite app_length. simpl.
     split; [lia|]. destruct (r_ph r).
-    + destruct L2 as [Lc Lb]. split; [exact Lc|]. destruct (r_sy r && is_nil q); simpl; tauto.
+    + destruct L2 as [Lc Lb]. split; [exact Lc|]. destruct sy; simpl; tauto.
     + destruct L2 as [Le _]. rewrite Le in P. simpl in P. lia.
   - (* await *)
     split; [unfold EI, set_ph in *; simpl; exact E|].
